@@ -118,6 +118,15 @@ def check_C15(ctx, rep):
             c = flds.get('client')
             okc = c[0] == 'un' and c[1] == 'Not' and next_field(c[2], 'client')
             rep.ob('C15.R1', ns, 'TunnelRecv-for-opposite-side', okc, 'client = %s' % shape(c))
+            # network causality: the arrival time is built from the time the packet was sent by ADDING the sampled network delay
+            # (and the recipient's reporting delay); nothing but the sender's own integration delay is ever subtracted
+            tm = flds.get('time')
+            is_nd = lambda e: contains(e, lambda y: is_call(y, 'NetworkBottleneck::sample'))
+            adds_nd = contains(tm, lambda y: isinstance(y, tuple) and y and y[0] == 'call' and y[1].endswith('::add') and len(y[2]) == 2 and is_nd(y[2][1]) and
+                               contains(y[2][0], lambda z: next_field(z, 'time')))
+            subs = [y for y in walk(tm) if isinstance(y, tuple) and y and ((y[0] == 'call' and y[1].endswith('::sub')) or (y[0] == 'bin' and y[1] == 'Sub'))]
+            subs_ok = all(y[0] == 'call' and len(y[2]) == 2 and next_field(y[2][1], 'integration_delay') and not is_nd(y[2][1]) for y in subs)
+            rep.ob('C15.R1', ns, 'TunnelRecv-time-adds-the-network-delay', adds_nd and subs_ok, 'time = %s' % shape(tm)[:160])
             cp = flds.get('contains_padding')
             st = pfh.at(site[0], site[1])
             okp = num(cp) is not None
@@ -505,6 +514,7 @@ def check_C16(ctx, rep):
     pick_next_consults(ctx, rep, 'C16.R2', 'peek_blocked_exp', 'a blocking expiry that is not looked at never reports BlockingEnd')
     check_peek_blocked_exp(ctx, rep, 'C16.R2')
     check_side_plumbing(ctx, rep, 'C16.R2', only=('peek_blocked_exp', 'peek_scheduled_action', 'do_scheduled_action', 'pick_next', 'peek_queue'))
+    check_pick_next_handlers(ctx, rep, 'C16.R2', 'do_scheduled_action', 'peek_scheduled_action')
     # a scheduled BlockOutgoing begins blocking only if the peek over the action slots finds it (shared with C17.R4)
     peek_nonstrict(ctx, rep, 'C16.R2', 'peek_scheduled_action', 'action')
     pick_next_consults(ctx, rep, 'C16.R2', 'peek_scheduled_action', 'a scheduled BlockOutgoing that is not looked at never begins blocking')
@@ -545,6 +555,48 @@ def check_C16(ctx, rep):
             flag = num(a[5])
             ok = su is not None and su == sb and flag is not None and ((su == 2) == bool(flag))
             rep.ob('C16.R4', pq, 'earliest-side-args:%s' % ('client' if flag else 'server'), ok, 'until of param %s, bypassable of param %s, is_client %s' % (su, sb, flag))
+    # the head of the queue is handed out as the next event only when it is free to leave: it is not a TunnelSent, or its own side is
+    # not blocking, or it bypasses a bypassable blocking of its own side (this is what holds a packet back while blocking is active)
+    n_head = 0
+    for (b, k, v) in ret_defs(qa):
+        if not (isinstance(v, tuple) and v and v[0] == 'tuple' and len(v[2]) == 3 and is_field(v[2][2], 'client', 'SimEvent')):
+            continue
+        n_head += 1
+        sts = qpf.at(b, k) if k is not None else qpf.at_entry(b)
+
+        def consistent(S):
+            seen = {}
+            for f in S:
+                if f[0] == 'btrue':
+                    key, pol = ('t', f[1]), f[2]
+                elif f[0] == 'bcall':
+                    key, pol = ('c', f[1], f[2]), f[3]
+                else:
+                    continue
+                if seen.setdefault(key, pol) != pol:
+                    return False
+            return True
+
+        def free(S):
+            g = lambda pred, pol: any(f[0] == 'btrue' and f[2] is pol and pred(f[1]) for f in S)
+            blocking = lambda side, pol: any(f[0] == 'bcall' and ((f[1].endswith('is_some') and f[3] is pol) or (f[1].endswith('is_none') and f[3] is (not pol))) and
+                                             side_state_field(f[2][0], 'blocking_until') == side for f in S)
+            if any(f[0] == 'bcall' and f[1].endswith('is_event') and f[3] is False and contains(f[2], lambda y: isinstance(y, tuple) and y and y[0] == 'agg' and y[2] == 'TunnelSent') for f in S):
+                return True
+            is_cl = lambda e: is_field(e, 'client', 'SimEvent')
+            if blocking(2, False) and blocking(3, False):
+                return True
+            for (side, pol) in ((2, True), (3, False)):
+                if g(is_cl, pol):
+                    if blocking(side, False):
+                        return True
+                    if blocking(side, True) and g(lambda e, side=side: side_state_field(e, 'blocking_bypassable') == side, True) and g(lambda e: is_field(e, 'bypass', 'SimEvent'), True):
+                        return True
+            return False
+        feas = [S for S in sts if consistent(S)]
+        bad = [S for S in feas if not free(S)]
+        rep.ob('C16.R4', pq, 'head-handed-out-only-when-free-to-leave', bool(feas) and not bad, 'paths %d' % len(feas) + ('' if not bad else '; witness ' + show_facts(bad[0])))
+    rep.count_floor('C16.R4', 'returns of the queue head in peek_queue', n_head, 3)
     check_is_event_table(ctx, rep, 'C16.R4')
     rep.rule('C16.R5', 'bypass classification: queue::peek_blocking treats the bypassable heap as blocked exactly when the active blocking is not '
              'bypassable, queue::peek_non_blocking treats it as free exactly when it is; peek_queue_earliest_side passes the side\'s own flag')
@@ -1095,6 +1147,7 @@ def check_C17(ctx, rep):
     peek_nonstrict(ctx, rep, 'C17.R4', 'peek_scheduled_action', 'action')
     pick_next_consults(ctx, rep, 'C17.R4', 'peek_scheduled_action', 'a scheduled action that is not looked at never fires')
     check_side_plumbing(ctx, rep, 'C17.R4', only=('peek_scheduled_action', 'do_scheduled_action', 'pick_next'))
+    check_pick_next_handlers(ctx, rep, 'C17.R3', 'do_scheduled_action', 'peek_scheduled_action')
     rep.assumptions += ['that the due action is picked before simulated time passes it is NOT decided beyond eligibility of due-now slots',
                         'every CFG path is treated as feasible']
     return 'handler tables for action timers in the simulator: slot overwrite, Cancel table, fire-once lookup, event translation'
@@ -1334,6 +1387,7 @@ def check_C18(ctx, rep):
     peek_nonstrict(ctx, rep, 'C18.R4', 'peek_scheduled_internal_timer', 'timer')
     pick_next_consults(ctx, rep, 'C18.R4', 'peek_scheduled_internal_timer', 'a running timer that is not looked at never reports TimerEnd')
     check_side_plumbing(ctx, rep, 'C18.R4', only=('peek_scheduled_internal_timer', 'do_internal_timer', 'pick_next'))
+    check_pick_next_handlers(ctx, rep, 'C18.R2', 'do_internal_timer', 'peek_scheduled_internal_timer')
     rep.assumptions += ['expiry selection order among several due items is NOT decided', 'every CFG path is treated as feasible']
     return 'handler tables for internal timers in the simulator: start rule, store/TimerBegin pairing, fire-once expiry, eligibility of due-now timers'
 
@@ -1586,6 +1640,27 @@ def check_simqueue_peek_merge(ctx, rep, rid):
         ok, w = all_paths(sts, ok_case)
         rep.ob(rid, pk, 'merge:%s-returned-only-when-first' % mine, ok and bool(sts), '' if ok else 'witness: ' + show_facts(w))
     rep.count_floor(rid, 'non-empty results of SimQueue::peek', n, 4)
+
+
+def check_pick_next_handlers(ctx, rep, rid, handler, peek):
+    """pick_next hands `current_time + <result of the peek>` to the handler as its target, and queues the event the handler returns
+    (push_sim of the Some payload): a timer / action that was found due is fired at its own time and its event is not lost"""
+    prog, an = ctx.prog, ctx.an
+    pn = sim_fn(prog, 'pick_next')
+    pa = an.get(pn)
+    hs = [(b, a) for (b, f, a, t) in calls(pa) if callee_str(f).split('::')[-1] == handler and f.get('crate') == SIM]
+    rep.count_exact(rid, handler + ' calls in pick_next', len(hs), 1)
+    for (b, a) in hs:
+        tgt = a[2] if len(a) > 2 else ('?',)
+        ok = isinstance(tgt, tuple) and tgt[0] == 'call' and tgt[1].endswith('::add') and len(tgt[2]) == 2 and strip_sites(tgt[2][0]) == ('param', 5) and \
+            is_call(unload(tgt[2][1]), peek)
+        rep.ob(rid, pn, '%s:target-is-now-plus-peek' % handler, ok, '%s(.., target = %s)' % (handler, shape(tgt)[:80]))
+        pushed = False
+        for (b2, f2, a2, t2) in calls(pa):
+            if callee_str(f2).endswith('SimQueue::push_sim') and pa.cfg.dominates(b, b2):
+                if contains(a2[1], lambda y: isinstance(y, tuple) and y and y[0] == 'var' and y[2] == 'Some' and is_call(unload(y[1]), handler)):
+                    pushed = True
+        rep.ob(rid, pn, '%s:result-is-queued' % handler, pushed, 'the event returned by %s is pushed into the queue' % handler)
 
 
 def check_C19(ctx, rep):
